@@ -9,6 +9,10 @@
  R3 heading carried: no chunk is built with a constant heading argument where a section heading is
     in scope (the heading argument is data-dependent).
  R4 determinism: no hash-ordered data reaches the returned chunk list; no clock/RNG reachable.
+ R5 nearest preceding heading: in `ElementGraph::build` the loop that attaches an element to the title its heading names reads
+    the heading -> title-index map that the *same* forward loop also fills, so the index it finds belongs to a title at or
+    before the element (a map completed by an earlier pass yields the *last* title with that text; with repeated heading texts
+    — "Notes", "Summary" — children attach to a later section and the graph chunker emits them out of order).
 Not decided: exactly-once coverage of elements, order, fragment concatenation (value-level).
 """
 from .. import lib as L
@@ -21,6 +25,7 @@ H = "pipeline::hybrid_chunking::HybridChunker::"
 
 
 def run(ctx):
+    r5_nearest_preceding(ctx)
     facts = ctx.facts
     mk = ctx.fn(H + "make_chunk", "anchor")
     n = 0
@@ -97,3 +102,36 @@ def run(ctx):
     OR.check_scope(ctx, "R4", [H + "chunk", H + "chunk_with_graph", "pipeline::graph::ElementGraph::build"],
                    scope_prefixes=["pipeline::hybrid_chunking", "pipeline::graph", "pipeline::token_counter", "pipeline::semantic_chunking"],
                    prims=["std::io::Write::write_all"], what="chunk list")
+
+
+def r5_nearest_preceding(ctx):
+    from .. import cfg as CF
+    facts = ctx.facts
+    fn = ctx.fn("pipeline::graph::ElementGraph::build", "R5")
+    g = CF.cfg(fn)
+    fl = FL.flow(fn)
+    n = 0
+    HM = "std::collections::HashMap::<K, V, S, A>::"
+    for h, body in sorted(g.loops().items()):
+        gets = [(b, L.recv_of(fn, fn.term(b)[2])) for b in body if fn.term(b)[0] == "call" and L.is_call_to(fn.term(b)[1], [HM + "get"])]
+        stores = [b for b in body if fn.term(b)[0] == "call" and L.is_call_to(fn.term(b)[1], ["IndexMut::index_mut"])
+                  and "Option<usize>" in (fn.locals[(L.recv_of(fn, fn.term(b)[2]) or (0, []))[0]])]
+        if not gets or not stores:
+            continue
+        n += 1
+        key = "build:parent-lookup-map-filled-in-same-pass"
+        ok = True
+        for gb, r in gets:
+            if r is None:
+                continue
+            ins = [b for b in body if fn.term(b)[0] == "call" and L.is_call_to(fn.term(b)[1], [HM + "insert"])
+                   and (L.recv_of(fn, fn.term(b)[2]) or (None,))[0] == r[0]]
+            if not ins:
+                ok = False
+                ctx.violation("R5", key, "the loop at %s attaches each element to the title found in a heading -> index map that this loop "
+                              "never writes: the map was completed by an earlier pass and holds the *last* title with each text, so with a "
+                              "repeated heading text the children of the earlier section attach to the later one (a parent after its "
+                              "child) and the graph chunker emits their text out of document order" % fn.where(h), fn.where(gb))
+        if ok:
+            ctx.ok("R5", key, "the map is filled by the same forward loop that reads it", fn.where(h))
+    ctx.floor("R5", "parent-assigning loops in ElementGraph::build", n, 1)
